@@ -1022,6 +1022,17 @@ def path_sweep_cases():
     for path in PATHS + PATHS_EXTRA:
         rq = gw.areq(method="GET", headers=[], body=[b""], query=b"", path_bytes=path, path="/")
         yield {"request": rq, "hostile": True, "labels": ["path-sweep"]}
+    # request targets without a leading slash ("*" of OPTIONS, an absolute URI, junk) x the server's own address (default and
+    # other ports, IPv6, no address at all on ASGI) x Host present / absent: request.url must be readable whatever the combination
+    for path in (b"*", b"x", b"x/y", b"http://other/y", b"@evil/", b":1/", b"?q", b"#f", b".", b".."):
+        for server in (["testserver", 80], ["srv", 8080], ["::1", 8000], ["srv", 443], None):
+            for scheme in ("http", "https"):
+                for host in (None, "h:81", "[::1]"):
+                    rq = gw.areq(method="OPTIONS" if path == b"*" else "GET", headers=[["Host", host]] if host else [], body=[b""], query=b"", path_bytes=path, path="/",
+                                 server=server or ["testserver", 80], scheme=scheme)
+                    if server is None:
+                        rq["server"] = None  # ASGI scope without a server address (the WSGI environ always has one)
+                    yield {"request": rq, "hostile": True, "labels": ["odd request target x server x Host"]}
     for path in (b"/dir", b"", b"/dir/../dir", b"/dir/up"):
         for q in QUERIES:
             rq = gw.areq(method="GET", headers=[], body=[b""], query=q, path_bytes=path, path="/")
